@@ -2,7 +2,7 @@
    Model: Decl.p_pointer / p_declarator (declast.Parser.pointer / declarator), Render.render_dtor / render_decl
    (Ptr / Declarator / Declaration.gen_decl_work).  The specifier-list part is dyn/C09_tables.v. *)
 From Coq Require Import List NArith ZArith Bool Arith String.
-From Shroud Require Import Base.Ustr Model.Splicer Model.Lexer Model.Expr Model.Decl Model.Render Proof.Render Proof.RoundTrip Proof.RenderLex.
+From Shroud Require Import Base.Ustr Model.Splicer Model.Lexer Model.Expr Model.Decl Model.Render Proof.Render Proof.RoundTrip Proof.RenderLex Proof.ExprRT Proof.ExprLex.
 Import ListNotations.
 
 (* every chain of pointers and references with const / volatile at every level is recorded exactly as written:
@@ -87,6 +87,12 @@ Example C09_roundtrip_examples :
      "void f(int *a +intent(out)+dimension(n), int n +implied(size(a)))"; "int a[3][n+1]"; "char const * const s"; "static const int z"]%string
   = true.
 Proof. vm_compute. reflexivity. Qed.
+
+(* array extents and dimension values are expressions: the text printed for one (canonical form, see Properties/C11.v) is read
+   back as the same expression, so a rendered extent denotes the number that was declared *)
+Theorem C09_rendered_extent_reparses : forall e, canon e = true -> etext e = true -> check_expr (print_expr e) = Ok e.
+Proof. exact check_expr_of_print. Qed.
+Print Assumptions C09_rendered_extent_reparses.
 
 (* the hypotheses of the round-trip theorems are met by non-trivial declarations: these parse, and what they parse to
    is in the fragment *)
